@@ -130,7 +130,8 @@ public:
 protected:
   inline bool impl_create_sandbox(const vsbx::Library* library = nullptr, bool ok = true, int want_slot = -1)
   {
-    if (!ok) return false;
+    // `ok == false` models a backend that fails LATE: its memory is already mapped (and stays mapped: rlbox never calls
+    // impl_destroy_sandbox on an instance whose creation failed); the harness releases it with force_release()
     int s = want_slot;
     if (s < 0) { for (int i = 0; i < 64; i++) if (!vsbx::g_slot_used[i]) { s = i; break; } }
     if (s < 0 || vsbx::g_slot_used[s]) std::abort();
@@ -152,7 +153,7 @@ protected:
     Base = want;
     brk = 16;
     lib = library;
-    return true;
+    return ok;
   }
 
   inline void impl_destroy_sandbox()
